@@ -6,6 +6,9 @@ import Frp.Gen.MsgSchema
 import Frp.Model.LockOrder
 import Frp.Gen.LockOrder
 import Frp.Lemmas.RegCtl
+import Frp.Lemmas.UserInput
+import Frp.Gen.IndexFacts
+import Frp.Gen.PluginClose
 /-
   C16 — No input or interleaving crashes or wedges frps or frpc (partial).
 
@@ -33,6 +36,17 @@ import Frp.Lemmas.RegCtl
       answered and every control closes; a control that is skipped when superseded wedges the run id for ever;
    7. (client) StartWorkConn addresses: an address that does not resolve reaches go-proxyproto as a typed nil and
       kills frpc when the proxy has a proxyProtocolVersion (known finding, switch `Crash.startWorkAddrIsFixed`).
+
+  Added (strengthening round 4) — the USER side:
+   8. the parsers behind the user-facing listeners (tcpmux CONNECT port, vhost http / https ports): every indexing /
+      slicing expression of pkg/util/http, pkg/util/vhost, pkg/util/tcpmux (REGENERATED Gen/IndexFacts.lean) is a map
+      lookup or dominated by a guard that implies Go's bounds check (judgement `IdxSite.ok`, soundness `index_ok_sound`
+      for every assignment of lengths and integers); hasPort / CanonicalHost with Go's indexing explicit never panic
+      and agree with the model `Host.canonicalHost` on every input;
+   9. frpc teardown against ACTIVE requests of the plugins that embed an http.Server: every `Close()` of
+      pkg/plugin/client (REGENERATED Gen/PluginClose.lean) makes only calls that cannot wait for a user; with such a
+      Close the worker reaches the next login under every interleaving with the users, whatever is active; with a
+      Shutdown without deadline, tcpMux off and one request that does not end it never does.
 
   Places where the code as it is in /repo violates the property are kept visible, each behind a
   switch that the integrator flips when the corresponding fix commit lands:
@@ -1133,6 +1147,166 @@ theorem model_holdsOn_login_fixed {maxPool login : Int} (hmax : 0 ≤ maxPool) :
   rw [login_never_kills_fixed hmax]
   rfl
 
+
+/-! ## 8. User-facing parsers: index / slice sites, CanonicalHost -/
+
+open Frp.UserIn in
+/-- every `x[i]` / `x[a:b]` in pkg/util/http, pkg/util/vhost, pkg/util/tcpmux is a map lookup or is dominated by guards
+    that the judgement accepts for its shape — over the facts regenerated from the tree on this run; an operand whose
+    type the extractor cannot resolve, a bound it cannot read and a guard that was invalidated by an assignment all
+    count as NOT guarded -/
+theorem index_sites_guarded : ∀ s ∈ Frp.Gen.IndexFacts.sites, s.ok = true := by
+  decide +kernel
+
+open Frp.UserIn in
+/-- what the judgement means: at an accepted site Go's run-time bounds check passes, for EVERY assignment of
+    lengths and integers under which the extracted guards hold (in particular for every byte string a user sends) -/
+theorem index_ok_sound : ∀ s ∈ Frp.Gen.IndexFacts.sites, s.opKind = .seq →
+    ∀ ρ : Env, (∀ f ∈ s.facts, f.holds ρ) → s.shape.safe ρ s.operand :=
+  fun s hs hk _ hf => IdxSite.ok_safe hk (index_sites_guarded s hs) hf
+
+open Frp.UserIn in
+/-- the extractor is not blind: hasPort's `host[0]` is there as an index 0 into a sequence under `1 ≤ len(host)`
+    (two or more colons were counted), both basic-auth parsers and both wildcard walks are there, and the map
+    lookups of the three host extractors are recognised as maps -/
+theorem index_sites_present :
+    [ ("hasPort", "host[0]", OpKind.seq, Shape.index (.const 0)),
+      ("ParseBasicAuth", "auth[:len(prefix)]", .seq, .slice none (some (.lenOf "prefix"))),
+      ("ParseBasicAuth", "cs[s+1:]", .seq, .slice (some (.varPlus "s" 1)) none),
+      ("parseBasicAuth", "cs[:s]", .seq, .slice none (some (.var "s"))),
+      ("Muxer.getListener", "domainSplit[0]", .seq, .index (.const 0)),
+      ("HTTPReverseProxy.getVhost", "domainSplit[1:]", .seq, .slice (some (.const 1)) none),
+      ("Muxer.handle", "reqInfoMap[\"Host\"]", .map, .index (.other "\"Host\"")),
+      ("HTTPConnectTCPMuxer.getHostFromHTTPConnect", "reqInfoMap[\"Host\"]", .map, .index (.other "\"Host\"")),
+      ("GetHTTPSHostname", "reqInfoMap[\"Host\"]", .map, .index (.other "\"Host\""))
+    ].all (fun k => (Frp.Gen.IndexFacts.sites.map (fun s => (s.fn, s.expr, s.opKind, s.shape))).contains k) = true ∧
+    13 ≤ (Frp.Gen.IndexFacts.sites.filter (fun s => s.opKind = .seq)).length := by
+  decide +kernel
+
+open Frp.UserIn in
+/-- a site without its guard is rejected: `host[0]` with nothing known, and with a guard on ANOTHER variable -/
+theorem index_unguarded_rejected :
+    (IdxSite.mk "f.go" "f" 1 "host[0]" "host" .seq (.index (.const 0)) []).ok = false ∧
+    (IdxSite.mk "f.go" "f" 1 "host[0]" "host" .seq (.index (.const 0)) [.lenGe "other" 1]).ok = false ∧
+    (IdxSite.mk "f.go" "f" 1 "host[len(host)-1]" "host" .seq (.index (.lenMinus "host" 1)) []).ok = false ∧
+    (IdxSite.mk "f.go" "f" 1 "m[k]" "m" .unknown (.index (.var "k")) []).ok = false ∧
+    (IdxSite.mk "f.go" "f" 1 "host[0]" "host" .seq (.index (.const 0)) [.lenGe "host" 1]).ok = true := by
+  decide
+
+/-- … and the rejection is right: with no guard there is an assignment (the empty string) under which Go panics -/
+theorem index_unguarded_panics :
+    ¬ UserIn.Shape.safe ⟨fun _ => 0, fun _ => 0⟩ "host" (.index (.const 0)) := by
+  intro h
+  simp only [UserIn.Shape.safe, UserIn.Bound.eval] at h
+  obtain ⟨n, hn, h0, h1⟩ := h
+  simp only [Option.some.injEq] at hn
+  simp only [Int.natCast_zero] at h1
+  omega
+
+/-- pkg/util/http hasPort as written (with `host[0]` able to panic) never panics and is the model's hasPort -/
+theorem hasPort_never_panics (h : Str) : UserIn.hasPortG h = .ok (Host.hasPort h) := UserIn.hasPortG_total h
+
+/-- CanonicalHost never panics, on any byte string, and computes `Host.canonicalHost` (the model C06 routes with) -/
+theorem canonicalHost_never_panics (host : Str) : UserIn.canonicalHostG host = .ok (Host.canonicalHost host) :=
+  UserIn.canonicalHostG_total host
+
+/-- why the extractor drops a guard at every assignment: a host that passed `host != ""` can be empty after
+    strings.TrimSuffix(host, "."), and indexing it then panics -/
+theorem guard_does_not_survive_trim : ∃ h : Str, h ≠ [] ∧ UserIn.goIndex (Host.trimDot h) 0 = .panic :=
+  UserIn.guard_does_not_survive_trim
+
+/-! ## 9. frpc teardown against active plugin requests -/
+
+/-- callees of a plugin's Close that were read by hand: pkg/vnet/controller.go UnregisterServerConn → serverRouter.delConn:
+    a mutex and a map delete -/
+def closeCalleesPinned : List String := ["VnetController.UnregisterServerConn"]
+
+open Frp.UserIn in
+/-- every `Close()` of pkg/plugin/client makes only calls that cannot wait for a user: (*http.Server).Close,
+    the package's Listener.Close, mutexes, close(ch), pinned callees — no Shutdown without deadline, no receive, no
+    Wait (regenerated on this run) -/
+theorem plugin_close_nonblocking : ∀ f ∈ Frp.Gen.PluginClose.closeFacts, f.nonBlocking closeCalleesPinned = true := by
+  decide +kernel
+
+open Frp.UserIn in
+/-- the extractor is not blind: the six plugins that embed an http.Server stop it in Close -/
+theorem plugin_close_present :
+    ["HTTP2HTTPPlugin", "HTTP2HTTPSPlugin", "HTTPS2HTTPPlugin", "HTTPS2HTTPSPlugin", "HTTPProxy", "StaticFilePlugin"].all
+      (fun r => Frp.Gen.PluginClose.closeFacts.any (fun f => f.recv = r &&
+        f.calls.any (fun c => c = .srvClose || c = .shutdown true || c = .shutdown false))) = true := by
+  decide +kernel
+
+open Frp.UserIn in
+/-- with a Close that cannot wait, frpc logs in again after at most four turns of the worker goroutine — for every
+    number of active requests, tcpMux on or off, and EVERY interleaving with requests that end by themselves -/
+theorem teardown_relogs {cs : List CloseCall} (h : ∀ c ∈ cs, c.mayWait closeCalleesPinned = false)
+    (mux : Bool) (active : Nat) (ls : List PLabel) (hw : 4 ≤ workerTicks ls) :
+    (prun mux cs { active := active } ls).pc = 4 := by
+  rw [prun_pc h mux ls _ (Nat.zero_le _)]
+  simp only
+  omega
+
+open Frp.UserIn in
+/-- … in particular with every Close method of the tree as it is -/
+theorem teardown_relogs_as_is : ∀ f ∈ Frp.Gen.PluginClose.closeFacts, ∀ (mux : Bool) (active : Nat) (ls : List PLabel),
+    4 ≤ workerTicks ls → (prun mux f.calls { active := active } ls).pc = 4 := by
+  intro f hf mux active ls hw
+  have hnb := plugin_close_nonblocking f hf
+  unfold CloseFact.nonBlocking at hnb
+  rw [List.all_eq_true] at hnb
+  apply teardown_relogs (cs := f.calls) _ mux active ls hw
+  intro c hc
+  have := hnb c hc
+  simpa using this
+
+open Frp.UserIn in
+/-- a Close that calls Shutdown without a deadline: with tcpMux off (work connections outlive the session) and one
+    request that does not end, the worker never leaves pm.Close(), however often it is scheduled: no close(doneCh),
+    no login, for ever -/
+theorem shutdown_wedges_forever (pre post : List CloseCall) (hpre : ∀ c ∈ pre, c ≠ .srvClose)
+    (active : Nat) (ha : 0 < active) (n : Nat) :
+    (prun false (pre ++ .shutdown false :: post) { active := active } (List.replicate n .worker)).pc ≤ 1 := by
+  have hc : ∀ a, 0 < a → closeRun (pre ++ .shutdown false :: post) a = none := by
+    intro a
+    induction pre generalizing a with
+    | nil =>
+      intro h0
+      have : a ≠ 0 := by omega
+      simp [closeRun, callStep, this]
+    | cons c cs ih =>
+      intro h0
+      have hne : c ≠ .srvClose := hpre c (List.mem_cons_self ..)
+      have hrest : ∀ c ∈ cs, c ≠ .srvClose := fun c hc => hpre c (List.mem_cons_of_mem _ hc)
+      simp only [List.cons_append, closeRun]
+      cases c with
+      | srvClose => exact absurd rfl hne
+      | lnClose => simp only [callStep]; exact ih hrest a h0
+      | mutex => simp only [callStep]; exact ih hrest a h0
+      | chanClose => simp only [callStep]; exact ih hrest a h0
+      | shutdown dl =>
+        cases dl with
+        | true => simp only [callStep]; exact ih hrest a h0
+        | false =>
+          have : a ≠ 0 := by omega
+          simp [callStep, this]
+      | wait w => simp [callStep]
+      | other o => simp only [callStep]; exact ih hrest a h0
+  exact (prun_wedged false rfl hc (List.replicate n .worker) (fun l hl => (List.mem_replicate.mp hl).2)
+    { active := active } (Nat.zero_le _) ha).1
+
+open Frp.UserIn in
+/-- the same Close with tcpMux ON: closeSession takes the work connections down first, Shutdown finds nothing active -/
+theorem shutdown_mux_relogs (active : Nat) :
+    (prun true [.shutdown false] { active := active } [.worker, .worker, .worker, .worker]).pc = 4 := by
+  simp [prun, pstep, closeRun, callStep]
+
+open Frp.UserIn in
+theorem shutdown_witness :
+    (prun false [.shutdown false, .lnClose] { active := 1 } (List.replicate 12 .worker)).pc = 1 ∧
+    (prun false [.srvClose, .lnClose] { active := 1 } (List.replicate 4 .worker)).pc = 4 ∧
+    (prun false [.shutdown false] { active := 1 } [.worker, .worker, .userFinishes, .worker, .worker, .worker]).pc = 4 := by
+  decide
+
 /-! ## non-vacuity -/
 
 example : chanCap false 5 1 = 11 := by decide
@@ -1163,6 +1337,12 @@ example : RegCtl.settled (RegCtl.run true {} (RegCtl.reloginSchedule 3 [3, 1, 0,
 example : handleStartWork false .v1 true true .bad .v4 = .crash ∧ handleStartWork true .v1 true true .bad .v4 = .closed ∧
     handleStartWork false .v2 true true .v4 .v6 = .closed ∧ handleStartWork false .v2 true false .v6 .v4 = .hdr ∧
     handleStartWork false .unset true true .bad .bad = .nohdr ∧ handleStartWork false .v1 false true .bad .bad = .nohdr := by decide
+
+example : Frp.Gen.IndexFacts.sites.length ≠ 0 := by decide +kernel
+example : Frp.Gen.PluginClose.closeFacts.length ≠ 0 := by decide +kernel
+example : UserIn.canonicalHostG [46] = .ok (some []) ∧ UserIn.canonicalHostG [46, 58, 56, 48] = .ok (some []) ∧
+    UserIn.canonicalHostG [91, 58, 58, 49, 93] = .ok (some [91, 58, 58, 49, 93]) ∧ UserIn.canonicalHostG [58, 58] = .ok (some [58, 58]) ∧
+    UserIn.canonicalHostG [91] = .ok (some [91]) ∧ UserIn.canonicalHostG [] = .ok (some []) := by decide
 
 end C16
 end Frp
